@@ -66,7 +66,7 @@ def accumulators(ctx, rep, clause):
         if r.callee.name in ('condense_static_mods', '_pop_delta_mass_mods', '_sequence_comp'):
             inplace = any(kw.arg == 'inplace' and isinstance(kw.value, ast.Constant) and kw.value.value is True
                           for kw in r.node.keywords)
-            order.append((r.node.lineno, r.callee.name, inplace))
+            order.append((r.node.order, r.callee.name, inplace))
     order.sort()
     names = [n for _, n, _ in order]
     ok = names[:3] == ['condense_static_mods', '_pop_delta_mass_mods', '_sequence_comp'] and order[0][2]
